@@ -20,7 +20,7 @@ import numpy as np
 
 from harness import classify, export as X, graphs as G, progcheck as PC, programs as P, trace as T
 
-KNOWN = ("swv-layout-drift", "take-through-broadcast", "slice-through-generic-blockwise", "swv-nested-wrong-values", "broadcast-axis-zero-width-chunk")
+KNOWN = ("swv-layout-drift", "take-through-broadcast", "slice-through-generic-blockwise", "swv-nested-wrong-values", "broadcast-axis-zero-width-chunk", "eye:offset:first-row-chunk-shorter")
 def compute_expr(e):
     import dask
     from dask_array._new_collection import new_collection
@@ -245,6 +245,12 @@ def run(ctx, replay=None):
         if replay.get("case", {}).get("rawfree"):  # rewrite-free phase comparison (harness/props_ext/c02_rawfree.py)
             from harness.props_ext import c02_rawfree
             return c02_rawfree.run(ctx, replay)
+        if replay.get("case", {}).get("rsl"):  # harness/props_ext/c02_redslice.py
+            from harness.props_ext import c02_redslice
+            return c02_redslice.run(ctx, replay)
+        if replay.get("case", {}).get("crt"):  # harness/props_ext/c02_creation.py
+            from harness.props_ext import c02_creation
+            return c02_creation.run(ctx, replay)
         if replay.get("case", {}).get("prm"):  # harness/props_ext/c02_perm.py
             from harness.props_ext import c02_perm
             return c02_perm.run(ctx, replay)
@@ -305,3 +311,7 @@ def run(ctx, replay=None):
     c02_coarse.run(ctx)
     from harness.props_ext import c02_perm  # axis permutation rules (Props/C02Perm.lean; prm.*)
     c02_perm.run(ctx)
+    from harness.props_ext import c02_creation  # slices / takes folded into creation arrays (Props/C02Creation.lean; crt.*)
+    c02_creation.run(ctx)
+    from harness.props_ext import c02_redslice  # slice pushdown through reductions (Props/C02ReduceSlice.lean; rsl.*)
+    c02_redslice.run(ctx)
